@@ -8,7 +8,7 @@ THEOREMS = ["Drand.Beacon.Transition." + t for t in [
     "tie_validate_group_transition", "tie_vault_setinfo", "tie_new_chain_info", "tie_transition_new_group", "tie_exec_finish_order",
     "c07_validated_identity", "c07_info_const", "c07_chain_hash_const", "c07_hash_ignores_members", "c07_setinfo_keeps_chain_info",
     "c07_registration", "c07_switch_before", "c07_switch_at", "c07_switch_point", "c07_old_shares_rejected", "c07_left_member_rejected",
-    "c07_failed_keeps_old", "c07_refused_transition_keeps_old",
+    "c07_failed_keeps_old", "c07_refused_transition_keeps_old", "c07_leaver_stop_time_counterexample",
     "c07_terms_pinned", "c07_period_change_refused", "c07_scheme_change_refused", "c07_scheme_unchecked_counterexample",
     "c07_tampered_period_pipeline"]] + \
     ["Drand.DKG.Pedersen." + t for t in ["c07_newshare_eq_eval", "c07_secret_preserved", "c07_pk_preserved", "c07_new_threshold_signs", "c07_old_share_off_new_poly"]] + \
